@@ -1,33 +1,113 @@
 import Pose.Model.ExpBatch
-/-! Batch-level masked scatter = item-wise branch (C01 hardening: mixed-regime batches). Mathlib-free. -/
+import Mathlib.Tactic.Ring
+/-! Masked selection / masked assignment (`maskTake`, `indexPut`) and the batch-level models of `so3_Exp.forward` and
+`rxso3_Ws` = item-wise models (C01). -/
 namespace PP
 variable {α : Type} [Scalar α]
 
-theorem maskSelect_map {β γ : Type} (p : γ → Bool) (f g : γ → β) (xs : List γ) :
-    maskSelect (xs.map p) (xs.map f) (xs.map g) = xs.map (fun x => if p x then f x else g x) := by
+theorem maskTake_map {β γ : Type} (h : β → γ) : ∀ (m : List Bool) (xs : List β),
+    maskTake m (xs.map h) = (maskTake m xs).map h
+  | [], xs => by cases xs <;> simp [maskTake]
+  | true :: m, [] => by simp [maskTake]
+  | false :: m, [] => by simp [maskTake]
+  | true :: m, x :: xs => by simp [maskTake, maskTake_map h m xs]
+  | false :: m, x :: xs => by simp [maskTake, maskTake_map h m xs]
+
+/-- a masked assignment of `f` evaluated on the selected sub-batch, onto an output that is itself a function of the items -/
+theorem indexPut_maskTake {β γ : Type} (p : γ → Bool) (f h : γ → β) : ∀ (xs : List γ),
+    indexPut (xs.map h) (xs.map p) ((maskTake (xs.map p) xs).map f) = xs.map (fun x => if p x then f x else h x)
+  | [] => by simp [indexPut]
+  | x :: xs => by
+    cases hp : p x
+    · simp [indexPut, maskTake, hp, indexPut_maskTake p f h xs]
+    · simp [indexPut, maskTake, hp, indexPut_maskTake p f h xs]
+
+theorem so3Exp_eq_fac (eps : α) (x : Vec3 α) :
+    so3Exp eps x = Quat.mk' (x.smul (if Scalar.lt eps x.norm then so3ExpClosedFac x.norm else so3ExpTaylorFac x.norm).1)
+      (if Scalar.lt eps x.norm then so3ExpClosedFac x.norm else so3ExpTaylorFac x.norm).2 := by
+  by_cases h : Scalar.lt eps x.norm = true <;> simp [so3Exp, so3ExpClosedFac, so3ExpTaylorFac, h]
+
+theorem zipWith_map_self {β γ δ : Type} (g : β → γ → δ) (h : β → γ) (xs : List β) :
+    List.zipWith g xs (xs.map h) = xs.map (fun x => g x (h x)) := by
   induction xs with
   | nil => rfl
-  | cons x xs ih => simp [maskSelect, ih]
-
-theorem so3Exp_eq_ite (eps : α) (x : Vec3 α) :
-    so3Exp eps x = if Scalar.lt eps x.norm then so3ExpClosed x else so3ExpTaylor x := rfl
+  | cons x xs ih => simp [ih]
 
 theorem so3ExpBatch_eq_map' (eps : α) (xs : List (Vec3 α)) : so3ExpBatch eps xs = xs.map (so3Exp eps) := by
   unfold so3ExpBatch
-  rw [maskSelect_map]
+  have h1 := indexPut_maskTake (fun t : α => Scalar.lt eps t) so3ExpClosedFac (fun _ => ((k 0 : α), (k 0 : α))) (xs.map Vec3.norm)
+  have h2 := indexPut_maskTake (fun t : α => !Scalar.lt eps t) so3ExpTaylorFac
+    (fun t => if Scalar.lt eps t then so3ExpClosedFac t else ((k 0 : α), (k 0 : α))) (xs.map Vec3.norm)
+  have e : ((xs.map Vec3.norm).map fun t => Scalar.lt eps t).map not = (xs.map Vec3.norm).map (fun t => !Scalar.lt eps t) := by
+    simp [List.map_map, Function.comp_def]
+  simp only []
+  rw [e, h1, h2, List.map_map, zipWith_map_self]
   apply List.map_congr_left
   intro x _
-  rw [so3Exp_eq_ite]
+  rw [so3Exp_eq_fac]
+  by_cases h : Scalar.lt eps x.norm = true <;> simp [h]
+
+theorem zipWith_map_map {β γ δ ε : Type} (g : γ → δ → ε) (h1 : β → γ) (h2 : β → δ) (xs : List β) :
+    List.zipWith g (xs.map h1) (xs.map h2) = xs.map (fun x => g (h1 x) (h2 x)) := by
+  induction xs with
+  | nil => rfl
+  | cons x xs ih => simp [ih]
 
 theorem wsCoefBatch_eq_map' (eps : α) (ts : List (α × α)) :
     wsCoefBatch eps ts = ts.map (fun p => rxso3WsCoef eps p.1 p.2) := by
   unfold wsCoefBatch
-  simp only [maskSelect_map]
-  rw [List.zipWith_map_left, List.zipWith_map_right, List.zipWith_self]
+  -- the masks as functions of the item
+  let sl : α × α → Bool := fun p => Scalar.lt eps (sabs p.2)
+  let tl : α × α → Bool := fun p => Scalar.lt eps p.1
+  have hsl : (ts.map fun p => Scalar.lt eps (sabs p.2)) = ts.map sl := rfl
+  have htl : (ts.map fun p => Scalar.lt eps p.1) = ts.map tl := rfl
+  have hn : (ts.map sl).map not = ts.map (fun p => !sl p) := by simp [List.map_map, Function.comp_def]
+  have hc1 : List.zipWith (fun a b => !a && !b) (ts.map sl) (ts.map tl) = ts.map (fun p => !sl p && !tl p) := zipWith_map_map _ _ _ _
+  have hc2 : List.zipWith (fun a b => !a && b) (ts.map sl) (ts.map tl) = ts.map (fun p => !sl p && tl p) := zipWith_map_map _ _ _ _
+  have hc3 : List.zipWith (fun a b => a && !b) (ts.map sl) (ts.map tl) = ts.map (fun p => sl p && !tl p) := zipWith_map_map _ _ _ _
+  have hc4 : List.zipWith (fun a b => a && b) (ts.map sl) (ts.map tl) = ts.map (fun p => sl p && tl p) := zipWith_map_map _ _ _ _
+  simp only [hsl, htl, hn, hc1, hc2, hc3, hc4]
+  -- C
+  have hC1 := indexPut_maskTake (fun p : α × α => !sl p) (fun _ => (k 1 : α)) (fun _ => (k 0 : α)) ts
+  rw [hC1]
+  have hC2 := indexPut_maskTake sl wsC (fun p => if (!sl p) = true then (k 1 : α) else k 0) ts
+  rw [hC2]
+  -- A, B
+  have hA1 := indexPut_maskTake (fun p : α × α => !sl p && !tl p) (fun _ => ((q 1 2 : α), (q 1 6 : α)))
+    (fun _ => ((k 0 : α), (k 0 : α))) ts
+  rw [hA1]
+  have hA2 := indexPut_maskTake (fun p : α × α => !sl p && tl p) wsAB2
+    (fun p => if (!sl p && !tl p) = true then ((q 1 2 : α), (q 1 6 : α)) else (k 0, k 0)) ts
+  rw [hA2]
+  have hA3 := indexPut_maskTake (fun p : α × α => sl p && !tl p) wsAB3
+    (fun p => if (!sl p && tl p) = true then wsAB2 p else if (!sl p && !tl p) = true then ((q 1 2 : α), (q 1 6 : α)) else (k 0, k 0)) ts
+  rw [hA3]
+  rw [maskTake_map, zipWith_map_self]
+  have hA4 := indexPut_maskTake (fun p : α × α => sl p && tl p)
+    (fun p => wsAB4 p (if sl p = true then wsC p else if (!sl p) = true then (k 1 : α) else k 0))
+    (fun p => if (sl p && !tl p) = true then wsAB3 p else if (!sl p && tl p) = true then wsAB2 p
+      else if (!sl p && !tl p) = true then ((q 1 2 : α), (q 1 6 : α)) else (k 0, k 0)) ts
+  rw [hA4, zipWith_map_map]
   apply List.map_congr_left
   intro p _
-  unfold rxso3WsCoef
-  cases h1 : Scalar.lt eps (sabs p.2) <;> cases h2 : Scalar.lt eps p.1 <;> simp
+  unfold rxso3WsCoef wsAB4 wsAB3 wsAB2 wsC
+  cases h1 : sl p <;> cases h2 : tl p <;> simp [sl, tl] at h1 h2 <;> simp [h1, h2]
+
+/-! ### generic facts about item-wise maps and object stores (moved out of `Props/C01.lean` in pass 4: they carry no clause of
+the property by themselves; the harness streams `repeat`, `reuse`, `copies`, `persistent` exercise the real code) -/
+
+/-- item `i` of a batched result depends only on item `i` of the argument -/
+theorem batch_item_independent {β γ : Type} (f : β → γ) (xs ys : List β) (i : Nat) (h : xs[i]? = ys[i]?) :
+    (xs.map f)[i]? = (ys.map f)[i]? := by
+  rw [List.getElem?_map, List.getElem?_map, h]
+
+/-- re-reading after an in-place item assignment: exactly that item of the result changes -/
+theorem reread_after_setitem {β γ : Type} (f : β → γ) (xs : List β) (i : Nat) (y : β) :
+    (xs.set i y).map f = (xs.map f).set i (f y) := List.map_set
+
+/-- the `k`-th result of a call history is the map of the `k`-th argument only -/
+theorem history_stateless {β γ : Type} (f : β → γ) (hist : List (List β)) (k : Nat) :
+    (hist.map (List.map f))[k]? = (hist[k]?).map (List.map f) := List.getElem?_map
 
 theorem runOps_filter_changes {β : Type} (ops : List (ObjOp β)) (s : Store β) :
     runOps s ops = runOps s (ops.filter ObjOp.changes) := by
